@@ -35,21 +35,43 @@ let pcr_new a =
                c_max = z_of_int (num a "max" 3); c_volatile = false };
   pcr_st := pending;
   pcr_ci4 := num a "ci4" 20; pcr_ri4 := num a "ri4" 4; pcr_off := num a "off" 0
-let pcr_step a =
-  let now = num a "now" 2000000000 in
-  let r = { r_state = sch_sstate_of_int (num a "state" 0); r_start = z_of_int now; r_end = z_of_int now } in
+(* m_CheckRunning of the subject and the before_check stamp of the execution in flight (model of the reset points:
+   EVERY ProcessCheckResult entry clears the flag, accepted or rejected - C04_result_clears_flag / C04_no_wedge) *)
+let pcr_running = ref false
+let pcr_inflight : int option ref = ref None
+let pcr_result now start state =
+  let r = { r_state = sch_sstate_of_int state; r_start = z_of_int start; r_end = z_of_int start } in
   let (post, io) = step !pcr_cfg (z_of_int now) !pcr_st r in
   pcr_st := post;
-  let ty = int_of_z (stype_num post.s_type) in
+  pcr_running := false;
+  ((match io with None -> 3 | Some _ -> 0), int_of_z (stype_num post.s_type))
+let pcr_step a =
+  let now = num a "now" 2000000000 in
+  let start = if has a "start" then num a "start" now else now in
+  let (res, ty) = pcr_result now start (num a "state" 0) in
   let units =
     if num a "active" 1 <> 0 then
       int_of_z (sch_next_units_after (q_of_frac now 1) (ty = 0) (q_of_frac !pcr_ci4 4) (q_of_frac !pcr_ri4 4) (z_of_int !pcr_off))
     else !pcr_ci4 * 2500 in
-  ((match io with None -> 3 | Some _ -> 0), ty, units)
-let op_sch_cnew a = pcr_new a
+  (res, ty, units)
+let op_sch_cnew a = pcr_new a; pcr_running := false; pcr_inflight := None
 let op_sch_cr a =
   let (res, ty, units) = pcr_step a in
-  emit (Printf.sprintf "pcr res=%d ty=%d next=%d" res ty units)
+  if res = 0 then emit (Printf.sprintf "pcr res=%d ty=%d next=%d" res ty units)
+  else emit (Printf.sprintf "pcr res=%d" res)
+let op_sch_exec a =
+  let now = num a "now" 2000000000 in
+  (* before_check = now; early UpdateNextCheck; optionally a passive result lands in the window before the test-and-set *)
+  if has a "race" then ignore (pcr_result (now + 1) (now + 1) (num a "race" 0));
+  if !pcr_running then emit "exec started=0"
+  else begin pcr_running := true; pcr_inflight := Some now; emit "exec started=1" end
+let op_sch_finish a =
+  match !pcr_inflight with
+  | None -> emit "fin none"
+  | Some st ->
+    pcr_inflight := None;
+    let (res, _) = pcr_result (num a "now" 2000000000) st (num a "state" 0) in
+    emit (Printf.sprintf "fin res=%d" res)
 
 let ids_of s = if s = "-" || s = "" then [] else List.map int_of_string (String.split_on_char ',' s)
 let quiet_of s =
@@ -74,6 +96,10 @@ let oracle_run (a : args) trace =
   let evs = ref [] and evsrc = ref [] in
   let nrec = ref [] and wrec = ref [] and frec = ref [] and qrec = ref None in
   let snaps = ref [] in   (* (time, idle ids as text, head id, head key, pcount), newest first *)
+  (* wedge detection: ExecuteCheck entries (X) per pool thread, executions (entry time, processing-done time) per checkable *)
+  let pending_entry : (int, int * int) Hashtbl.t = Hashtbl.create 32 in     (* tid -> (c, t) *)
+  let returned = ref [] in                                                  (* (c, t_entry, t_upper) guard returns *)
+  let execs_of : (int, (int * int ref) list) Hashtbl.t = Hashtbl.create 64 in (* c -> (entry time, done time ref) newest first *)
   let dmax = ref 0 in
   let starts : (int, int list) Hashtbl.t = Hashtbl.create 64 in      (* c -> start times, newest first *)
   let spans : (int, (int * int) list) Hashtbl.t = Hashtbl.create 64 in (* c -> (start, end) *)
@@ -93,8 +119,27 @@ let oracle_run (a : args) trace =
   let si = ref 0 in
   List.iter (fun l ->
     match toks_of l with
-    | "S" :: t :: c :: late :: _ ->
+    | "X" :: t :: c :: tid :: _ ->
+      let t = int_of_string t and c = int_of_string c and tid = int_of_string tid in
+      (match Hashtbl.find_opt pending_entry tid with
+       | Some (c0, t0) -> returned := (c0, t0, t) :: !returned     (* the previous entry on this thread never started its command *)
+       | None -> ());
+      Hashtbl.replace pending_entry tid (c, t)
+    | "D" :: t :: c :: _ ->
       let t = int_of_string t and c = int_of_string c in
+      (match (try Hashtbl.find execs_of c with Not_found -> []) with
+       | (_, d) :: _ when !d = max_int -> d := t
+       | l -> (match List.find_opt (fun (_, d) -> !d = max_int) l with Some (_, d) -> d := t | None -> ()))
+    | "S" :: t :: c :: late :: rest ->
+      let t = int_of_string t and c = int_of_string c in
+      (match rest with
+       | _ :: tid :: _ ->
+         let tid = int_of_string tid in
+         let entry = (match Hashtbl.find_opt pending_entry tid with
+           | Some (c0, t0) when c0 = c -> Hashtbl.remove pending_entry tid; t0
+           | _ -> t) in
+         Hashtbl.replace execs_of c ((entry, ref max_int) :: (try Hashtbl.find execs_of c with Not_found -> []))
+       | _ -> ());
       lmax := max !lmax (int_of_string late);
       evs := SchEvStart (z_of_int c) :: !evs; evsrc := l :: !evsrc;
       Hashtbl.replace starts c (t :: (try Hashtbl.find starts c with Not_found -> []));
@@ -150,6 +195,17 @@ let oracle_run (a : args) trace =
                   | Some "0" | None -> ()
                   | Some v -> fail ("pending-leak pending-set-size=" ^ v ^ " after the scheduler stopped and all checks finished"))
      | None -> ());
+    (* the single-flight guard must not wedge (C04_no_wedge): an ExecuteCheck() that returned at the guard (entry X on a pool
+       thread not followed by the start of its command on that thread) is legitimate only if an execution of the same
+       checkable was in flight at some moment between this entry and the next record of the thread: entered before that
+       upper bound and its result processing (accepted OR rejected) not over before this entry.  Timing free. *)
+    Hashtbl.iter (fun _ (c0, t0) -> returned := (c0, t0, max_int) :: !returned) pending_entry;
+    List.iter (fun (c, t0, tup) ->
+      let xs = try Hashtbl.find execs_of c with Not_found -> [] in
+      if not (List.exists (fun (te, d) -> te <= tup && !d >= t0) xs) then
+        let last = List.fold_left (fun acc (_, d) -> if !d < t0 then max acc !d else acc) (-1) xs in
+        fail (Printf.sprintf "single-flight wedged c=%d ExecuteCheck entered at %d returned at the running guard although no execution was in flight (last result processing finished at %d)" c t0 last))
+      (List.rev !returned);
     (* liveness, the timed reading of C04_progress_partial, decided from the snapshots only: the scheduler is STUCK if the
        same head of the next-check index (same object, same key) stays due with a free slot over more than delta.
        Whatever else delays a check - slots taken, earlier-due checkables, a saturated pool, a loaded machine - is not
@@ -199,6 +255,9 @@ let oracle_c04 script trace =
   | [] ->
     let uncs = List.filter (fun l -> String.length l > 4 && String.sub l 0 4 = "unc ") trace in
     let pcrs = ref (List.filter (fun l -> String.length l > 4 && String.sub l 0 4 = "pcr ") trace) in
+    let execs = ref (List.filter (fun l -> String.length l > 5 && String.sub l 0 5 = "exec ") trace) in
+    let fins = ref (List.filter (fun l -> String.length l > 4 && String.sub l 0 4 = "fin ") trace) in
+    let inflight = ref false in
     let ci4 = ref 20 and ri4 = ref 4 in
     let tr = ref uncs and err = ref None in
     let fail m = if !err = None then err := Some m in
@@ -216,12 +275,31 @@ let oracle_c04 script trace =
               if not (v > 0) then fail (Printf.sprintf "next-check not-in-future (%s) -> %d" line v)
               else if not (v <= i_units) then fail (Printf.sprintf "next-check beyond-interval (%s) -> %d > %d" line v i_units)
             | None -> fail "crash malformed-unc"))
-      | Some ("sch_cnew", a) -> ci4 := num a "ci4" 20; ri4 := num a "ri4" 4
+      | Some ("sch_cnew", a) -> ci4 := num a "ci4" 20; ri4 := num a "ri4" 4; inflight := false
+      | Some ("sch_exec", a) ->
+        (* C04_no_wedge on the implementation: ExecuteCheck may return at the guard only while an execution is in flight,
+           i.e. started and no ProcessCheckResult (own result accepted/rejected, or any other result) since *)
+        (match !execs with
+         | [] -> fail "crash missing-exec-observation"
+         | l :: rest ->
+           execs := rest;
+           if has a "race" then inflight := false;
+           (match tok_val (toks_of l) "started" with
+            | Some "1" -> inflight := true
+            | Some "0" ->
+              if not !inflight then
+                fail (Printf.sprintf "single-flight wedged: (%s) did not start the command although no execution is in flight (m_CheckRunning left set after a result was processed)" line)
+            | _ -> fail "crash malformed-exec"))
+      | Some ("sch_finish", _) ->
+        (match !fins with
+         | [] -> fail "crash missing-fin-observation"
+         | l :: rest -> fins := rest; if l <> "fin none" then inflight := false)
       | Some ("sch_cr", a) ->
         (match !pcrs with
          | [] -> fail "crash missing-pcr-observation"
          | l :: rest ->
            pcrs := rest;
+           inflight := false;
            let t = toks_of l in
            (match tok_val t "next", tok_val t "ty", tok_val t "res" with
             | Some v, Some ty, Some "0" when num a "active" 1 <> 0 ->
@@ -231,6 +309,7 @@ let oracle_c04 script trace =
               else if not (v <= i_units) then
                 fail (Printf.sprintf "next-check beyond-interval after-result post-state-type=%s (%s) -> %d > %d" ty line v i_units)
             | Some _, Some _, Some _ -> ()
+            | None, None, Some _ -> ()
             | _ -> fail "crash malformed-pcr"))
       | Some ("sch_run", a) ->
         (match oracle_run a trace with Some m -> fail m | None -> ())
@@ -242,4 +321,6 @@ let () =
   register_op "sch_run" op_sch_run;
   register_op "sch_cnew" op_sch_cnew;
   register_op "sch_cr" op_sch_cr;
+  register_op "sch_exec" op_sch_exec;
+  register_op "sch_finish" op_sch_finish;
   register_oracle "C04" oracle_c04
